@@ -126,7 +126,7 @@ func (data AddLimitOrderData) Run(tx *Transaction, context state.Interface, rewa
 	if isGasCommissionFromPoolSwap && swapper.GetID() == commissionPoolSwapper.GetID() {
 		commissionInBaseCoin, _ = commissionPoolSwapper.CalculateBuyForSellWithOrders(commission)
 		if tx.GasCoin == data.CoinToSell && data.CoinToBuy.IsBaseCoin() {
-			swapper = swapper.AddLastSwapStepWithOrders(commission, commissionInBaseCoin, true)
+			swapper = swapper.AddLastSwapStepWithOrders(commission, commissionInBaseCoin, false)
 		}
 		if tx.GasCoin == data.CoinToBuy && data.CoinToSell.IsBaseCoin() {
 			swapper = swapper.AddLastSwapStepWithOrders(big.NewInt(0).Neg(commissionInBaseCoin), big.NewInt(0).Neg(commission), true)
